@@ -216,7 +216,13 @@ impl<'a> Ctx<'a> {
         let text = e.text();
         let r = match e.attr("type") {
             Some("Integer") => parse_i64(&text).map(LimitVal::I),
-            Some("ScaledInteger") => parse_i64(&text).map(LimitVal::SI),
+            Some("ScaledInteger") => {
+                let s = e.attr("scale").map(|t| parse_f64(t).unwrap_or(f64::NAN)).unwrap_or(1.0);
+                let o = e.attr("offset").map(|t| parse_f64(t).unwrap_or(f64::NAN)).unwrap_or(0.0);
+                // settled by the caller, which knows the prototype: SI when the element is stated in the units of the
+                // attribute it limits, SX otherwise
+                parse_i64(&text).map(|raw| LimitVal::SX { raw, scale: F64(s), offset: F64(o) })
+            }
             Some("Float") => match e.attr("precision") {
                 Some("single") => parse_f32(&text).map(|v| LimitVal::S(F32(v))),
                 None | Some("double") => parse_f64(&text).map(|v| LimitVal::D(F64(v))),
@@ -717,30 +723,12 @@ impl<'a> Ctx<'a> {
             }
         }
         // A ScaledInteger element stands for raw x scale + offset, with scale 1 and offset 0 when it does not say otherwise.
-        // A limit written as ScaledInteger for a scaled-integer attribute therefore has to carry that attribute's scale and
-        // offset (as the reference implementation writes it), or it states a limit in other units than the attribute's.
-        for (group, pairs) in [
-            ("intensityLimits", vec![("intensityMinimum", "intensity"), ("intensityMaximum", "intensity")]),
-            (
-                "colorLimits",
-                vec![("colorRedMinimum", "colorRed"), ("colorRedMaximum", "colorRed"), ("colorGreenMinimum", "colorGreen"), ("colorGreenMaximum", "colorGreen"), ("colorBlueMinimum", "colorBlue"), ("colorBlueMaximum", "colorBlue")],
-            ),
-        ] {
-            let Some(g) = self.opt_child(e, group) else { continue };
-            for (lname, rname) in pairs {
-                let Some(l) = self.opt_child(g, lname) else { continue };
-                if l.attr("type") != Some("ScaledInteger") {
-                    continue;
-                }
-                let Some(RType::Scaled { scale, offset, .. }) = proto.iter().find(|r| r.prefix.is_none() && r.name == rname).map(|r| r.ty.clone()) else { continue };
-                let ls = l.attr("scale").map(|t| parse_f64(t).unwrap_or(f64::NAN)).unwrap_or(1.0);
-                let lo = l.attr("offset").map(|t| parse_f64(t).unwrap_or(f64::NAN)).unwrap_or(0.0);
-                if ls.to_bits() != scale.0.to_bits() || lo.to_bits() != offset.0.to_bits() {
-                    self.complain(format!("<{lname}> is a ScaledInteger element with scale {ls} and offset {lo}, the attribute {rname} it limits has scale {} and offset {}: the limit is not stated in the attribute's units", scale.0, offset.0));
-                }
-            }
-        }
-        Cloud { meta, proto, points }
+        // A limit written as ScaledInteger in the units of the attribute it limits (the attribute's scale and offset, as the
+        // reference implementation writes it; 1 and 0 for an attribute that is no scaled integer) is reported as SI(raw);
+        // one with another scale or offset states a real number in units of its own and is reported as SX.
+        let mut cloud = Cloud { meta, proto, points };
+        crate::scene::settle_limits(&mut cloud, false);
+        cloud
     }
 }
 
